@@ -2,6 +2,7 @@
 # tools/try_seed.sh <patch.diff> <Cxx> [tier]  : apply a seeded change to /repo, run the check, undo the change
 P="$1"; C="$2"; T="${3:-quick}"
 cd /repo && git diff --quiet || { echo "/repo is dirty"; exit 9; }
+trap 'git -C /repo checkout -- .' EXIT INT TERM
 git -C /repo apply "$P" || { echo "patch does not apply"; exit 9; }
 cd /verif && timeout 1500 ./check "$C" --tier "$T" > /tmp/try_seed.out 2>&1; RC=$?
 git -C /repo checkout -- . 
